@@ -16,12 +16,16 @@ reduced to `""`, TAB/CR/LF that `urlsplit` deletes, a `ValueError` of `urlsplit`
 
 * protocol helpers: `ensure_idempotent`, `force_idempotent`, `force_prefix`,
   `ensure_keeps_rest`, `force_keeps_rest`, `protocol_spelling_irrelevant`;
+  `force_eq_ensure_strip_iff` (the law holds exactly when the remainder has no protocol),
   `force_eq_ensure_strip_partial` + the proof that the full law is false (KF-C20-1);
 * `format_url` / `URLFormatter`: `format_query_roundtrip`, `format_url_shape`,
-  `format_url_query_fragment`, `format_no_dangling_qmark`, `format_path_join`,
-  `format_fragment`, `formatter_format_spec`;
+  `format_url_query_fragment`, `format_url_urlsplit_roundtrip` (end to end through `urlsplit`),
+  `format_no_dangling_qmark`, `format_path_join`, `format_fragment`, `formatter_format_spec`;
 * `add_query_argument` / `get_query_argument`: `add_query_argument_appends_one`,
-  `add_then_lookup`, `add_then_get`; `pathsplit_spec`, `urlpathsplit_spec`.
+  `add_then_lookup`, `add_then_get` (WIRE level: quoted key, quoted value),
+  `add_then_get_decodes`, `add_then_get_raw` (raw key / value, unreserved characters only),
+  `add_then_get_raw_fails_on_reserved` / `fullRawReadBack_false` (the raw clause is false on
+  reserved characters); `pathsplit_spec`, `urlpathsplit_spec`.
 -/
 namespace Ural.Props.C20
 open Ural Ural.Py
@@ -133,6 +137,28 @@ theorem force_eq_ensure_strip_partial (u p : Str)
   rw [force_protocol_eq]
   unfold ensure_protocol
   rw [h]
+
+/-- **exactly when**: the law `force_protocol(u, p) == ensure_protocol(strip_protocol(u), p)`
+holds IF AND ONLY IF what is left after stripping the protocol does not itself start with a
+protocol — for every string and every protocol argument (alphabetic or not).  On the excluded
+region the two sides have different lengths: `ensure_protocol` adds nothing (or only `p:` in
+front of a `//…` remainder) where `force_protocol` adds `p://`. -/
+theorem force_eq_ensure_strip_iff (u p : Str) :
+    force_protocol u p = ensure_protocol (strip_protocol u) p ↔
+      protoLen (strip_protocol u) = none := by
+  constructor
+  · intro h
+    cases hpl : protoLen (strip_protocol u) with
+    | none => rfl
+    | some n =>
+      exfalso
+      rw [force_protocol_eq] at h
+      unfold ensure_protocol at h
+      rw [hpl] at h
+      have hlen := congrArg List.length h
+      simp only [] at hlen
+      split at hlen <;> simp [sepFull] at hlen <;> omega
+  · exact force_eq_ensure_strip_partial u p
 
 /-- KF-C20-1: on `a://b://c` the law fails (and must: it contradicts `force_prefix`) -/
 theorem force_eq_ensure_strip_counterexample :
@@ -247,6 +273,42 @@ theorem format_url_query_fragment (base : Str) (path : Option PathArg) (args : O
   | none => simp [splitFirst_notMem_s20 _ _ hXh, hXq]
   | some f => simp [splitFirst_append_sep_s20 _ _ _ hXh, hXq]
 
+/-- **end to end: what `urlsplit` reads in a `format_url` result decodes back to exactly the
+retained arguments.**  Chains `format_url_query_fragment` (plain split of the result),
+`urlsplit_query_fragment` (the `urlsplit` model reads the query / fragment of the plain split)
+and `format_query_roundtrip` (the query string decodes to the arguments).  For every base,
+path, extension whose joined prefix contains neither `?` nor `#`, every argument dict / list
+(keys and values with any characters), every fragment: if the result `U` is not altered by
+`urlsplit`'s cleaning (it holds no TAB/CR/LF and does not start with a C0 control or space —
+`quote` never produces these, so this is a condition on base / path / fragment only) and
+`urlsplit(U)` does not raise, then its `.query` is empty when no argument is retained and
+otherwise decodes (`split("&")`, `split("=", 1)`, `unquote`) to the retained `(key, value)`
+list in order — `True` as a bare key, everything else as its `str()` —, and its `.fragment`
+is the given fragment without its leading `#`s (empty when none is given). -/
+theorem format_url_urlsplit_roundtrip (base : Str) (path : Option PathArg) (args : Option Args)
+    (fragment ext : Option Str) (r : SplitResult)
+    (hq : '?' ∉ urlPrefix base path ext) (hf : '#' ∉ urlPrefix base path ext)
+    (hhead : ∀ c rest, format_url base path args fragment ext = c :: rest → isC0OrSpace c = false)
+    (hun : ∀ c ∈ format_url base path args fragment ext, isUnsafeUrlChar c = false)
+    (hs : urlsplit (format_url base path args fragment ext) [] = some r) :
+    (retainedArgs args = [] → r.query = []) ∧
+    (retainedArgs args ≠ [] →
+      decodeQuery r.query = (retainedArgs args).map (fun kv => (kv.1, wireVal kv.2))) ∧
+    r.fragment = (fragment.map (fun f => lstripChars f ['#'])).getD [] := by
+  obtain ⟨h1, h2⟩ := urlsplit_query_fragment _ _ r hs
+  rw [cleanUrl_eq_self _ hhead hun] at h1 h2
+  obtain ⟨g1, g2⟩ := format_url_query_fragment base path args fragment ext hq hf
+  unfold plainQuery at h1
+  unfold plainFragment at h2
+  rw [g1] at h1
+  rw [g2] at h2
+  refine ⟨?_, ?_, h2⟩
+  · intro he
+    rw [h1, if_pos he]; rfl
+  · intro hne
+    rw [h1, if_neg hne]
+    exact format_query_roundtrip _ hne
+
 /-- **path join**: base and path are joined by exactly one `/` — the base loses its
 trailing slashes, the path (a string, or list items joined by `/`) its leading ones -/
 theorem format_path_join (base : Str) (p : PathArg) (args : Option Args)
@@ -293,7 +355,10 @@ theorem mergeDicts_mem (self call : List (Str × ArgVal)) (kv : Str × ArgVal) :
 
 /-- **`URLFormatter.format`** is `format_url` on the call's parameters, each falling back on
 the formatter's default when `None` (the extension has no default), with dict arguments
-merged (the call wins); merging anything with a list is refused -/
+merged (the call wins); merging anything with a list is refused.
+(This RESTATES the model's `Formatter.format` in one equation — it is true by unfolding; what
+it says about the code is the model-vs-code correspondence of the `formatter` stream.  A
+subclass overriding `format_arg_value` is not modelled: disclosed in `UNPROVED`.) -/
 theorem formatter_format_spec (self : Formatter) (base_url : Option Str) (path : Option PathArg)
     (args : Option Args) (fragment ext : Option Str) (b : Str)
     (hb : base_url.or self.base_url = some b) :
@@ -321,6 +386,17 @@ example : format_url "http://a.com/".toList (some (.str "/p".toList))
     = "http://a.com/p?k=a%26b#f".toList := by decide
 example : format_url "http://a.com".toList none (some ⟨true, [("n".toList, .pyNone)]⟩) none none
     = "http://a.com".toList := by decide
+/-- the end-to-end theorem applies (all hypotheses decided) to a call with a reserved key, a
+reserved value, a dropped `None` and a fragment; `urlsplit` reads query `a%26b=x%20y&t` -/
+example :
+    let U := format_url "http://a.com/".toList (some (.str "/p".toList))
+      (some ⟨true, [("t".toList, .pyTrue), ("a&b".toList, .other "x y".toList), ("n".toList, .pyNone)]⟩)
+      (some "#f".toList) none
+    '?' ∉ urlPrefix "http://a.com/".toList (some (.str "/p".toList)) none ∧
+    '#' ∉ urlPrefix "http://a.com/".toList (some (.str "/p".toList)) none ∧
+    U = "http://a.com/p?a%26b=x%20y&t#f".toList ∧
+    (urlsplit U []).map (fun r => (r.query, r.fragment)) = some ("a%26b=x%20y&t".toList, "f".toList) := by
+  decide +kernel
 
 /-! ## builders: `add_query_argument`, `get_query_argument`, `pathsplit` -/
 
@@ -484,6 +560,132 @@ theorem add_then_get (url name : Str) (value : Option Str) (hn : name ≠ [])
     rw [hrq, if_neg hQne]
     rw [hQ] at hlook
     simpa [queryItems, hQne] using hlook
+
+/-! ### the reading of "reads back": wire level vs raw
+
+`add_query_argument` percent-quotes name and value (`quote=True`); `get_query_argument`
+compares its `key` argument with the item's key AS WRITTEN in the URL and returns the value
+AS WRITTEN (it does not unquote; it has no docstring and the README does not mention it).  So
+"which `get_query_argument` reads back" is proved above at *wire level* (`add_then_get`:
+looked up under `quote(name)`, returning `quote(value)`).  Below: the returned string decodes
+to the raw value (`add_then_get_decodes`); under the RAW key and for the RAW value the clause
+holds exactly when quoting changes neither (`add_then_get_raw`), and it FAILS otherwise, in
+the model as in the code (`add_then_get_raw_fails_on_reserved`). -/
+
+/-- the characters `quote(·)` (default `safe="/"`) leaves alone: `A-Z a-z 0-9 _ . - ~ /` -/
+def isUnreserved (c : Char) : Bool :=
+  decide (c.toNat < 128) && (alwaysSafe c.toNat.toUInt8 || c == '/')
+
+/-- `quote` is the identity on strings of unreserved characters -/
+theorem quote_unreserved (s : Str) (h : ∀ c ∈ s, isUnreserved c = true) : quote s = s := by
+  induction s with
+  | nil => rfl
+  | cons c r ih =>
+    have hc := h c (List.mem_cons_self ..)
+    simp only [isUnreserved, Bool.and_eq_true, decide_eq_true_eq] at hc
+    obtain ⟨h128, hsafe⟩ := hc
+    have ih' := ih (fun d hd => h d (List.mem_cons_of_mem _ hd))
+    unfold quote utf8Encode at ih' ⊢
+    rw [List.flatMap_cons, List.flatMap_append, ih', utf8EncodeChar_ascii c h128]
+    simp only [List.flatMap_cons, List.flatMap_nil, List.append_nil]
+    have hb : (c.toNat.toUInt8).toNat = c.toNat := by
+      simp only [Nat.toUInt8, UInt8.toNat_ofNat']; omega
+    have hq : quoteByte [0x2F] c.toNat.toUInt8 = [c] := by
+      unfold quoteByte
+      have : (alwaysSafe c.toNat.toUInt8 || [(0x2F : UInt8)].contains c.toNat.toUInt8) = true := by
+        rcases Bool.or_eq_true _ _ |>.mp hsafe with h1 | h1
+        · simp [h1]
+        · have : c = '/' := by simpa using h1
+          subst this; decide
+      rw [if_pos this, hb]
+      congr 1
+      apply Char.ext
+      apply UInt32.toNat_inj.mp
+      exact charOfNat_toNat_small c.toNat (by omega)
+    rw [hq]; rfl
+
+/-- **the value read back decodes to the raw value**: under the hypotheses of `add_then_get`,
+what `get_query_argument` returns under the quoted key is a string `w` with
+`unquote(w) == value` (and `True` for a bare key) -/
+theorem add_then_get_decodes (url name : Str) (value : Option Str) (hn : name ≠ [])
+    (hclean : ∀ c ∈ url, isUnsafeUrlChar c = false)
+    (hnew : ∀ it ∈ queryItems (splitQuery url).2, (qslItem it).1 ≠ quote name)
+    (hok : safe_urlsplit (add_query_argument url name value true) ≠ none) :
+    (value = none →
+      get_query_argument (add_query_argument url name value true) (quote name) = .ok .bare) ∧
+    (∀ v, value = some v →
+      ∃ w, get_query_argument (add_query_argument url name value true) (quote name)
+            = .ok (.str w) ∧ unquote w = v) := by
+  have h := add_then_get url name value hn hclean hnew hok
+  refine ⟨fun hv => ?_, fun v hv => ⟨quote v, ?_, unquote_quote v⟩⟩
+  · rw [h, hv]; rfl
+  · rw [h, hv]; rfl
+
+/-- what the raw read-back must return: `True` for a bare key, else the value as given -/
+def rawGet (value : Option Str) : QArg :=
+  match value with
+  | none => .bare
+  | some v => .str v
+
+/-- **raw read-back** (partial: name and value made of unreserved characters
+`A-Za-z0-9_.-~/`, which `quote` leaves alone): `get_query_argument(add_query_argument(url,
+name, value), name)` is `value` itself (`True` for a bare key) when the key is new.  Other
+hypotheses as in `add_then_get`. -/
+theorem add_then_get_raw (url name : Str) (value : Option Str) (hn : name ≠ [])
+    (hname : ∀ c ∈ name, isUnreserved c = true)
+    (hvalue : ∀ v, value = some v → ∀ c ∈ v, isUnreserved c = true)
+    (hclean : ∀ c ∈ url, isUnsafeUrlChar c = false)
+    (hnew : ∀ it ∈ queryItems (splitQuery url).2, (qslItem it).1 ≠ name)
+    (hok : safe_urlsplit (add_query_argument url name value true) ≠ none) :
+    get_query_argument (add_query_argument url name value true) name
+      = .ok (rawGet value) := by
+  have hqn : quote name = name := quote_unreserved name hname
+  have hnew' : ∀ it ∈ queryItems (splitQuery url).2, (qslItem it).1 ≠ quote name := by
+    rw [hqn]; exact hnew
+  have h := add_then_get url name value hn hclean hnew' hok
+  rw [hqn] at h
+  rw [h]
+  cases value with
+  | none => rfl
+  | some v =>
+    have hqv : quote v = v := quote_unreserved v (hvalue v rfl)
+    simp only [expectedGet, rawGet, hqv]
+
+/-- the full raw clause: for every new non-empty key and every value, the raw key reads the raw
+value back.  FALSE for the model and for the code (next theorem). -/
+def FullRawReadBack : Prop :=
+  ∀ (url name v : Str), name ≠ [] → (∀ c ∈ url, isUnsafeUrlChar c = false) →
+    (∀ it ∈ queryItems (splitQuery url).2, (qslItem it).1 ≠ name) →
+    safe_urlsplit (add_query_argument url name (some v) true) ≠ none →
+    get_query_argument (add_query_argument url name (some v) true) name = .ok (.str v)
+
+/-- **without the unreserved hypothesis the raw read-back fails** (as it does on the code:
+`get_query_argument(add_query_argument("http://a.com/p?x=1#f", "k&", "a b"), "k&")` is `None`):
+a reserved KEY is not found under its raw spelling, only under `quote(key)`; a reserved VALUE
+under an unreserved key comes back quoted (`"a%20b"`, not `"a b"`). -/
+theorem add_then_get_raw_fails_on_reserved :
+    add_query_argument "http://a.com/p?x=1#f".toList "k&".toList (some "a b".toList) true
+      = "http://a.com/p?x=1&k%26=a%20b#f".toList ∧
+    get_query_argument "http://a.com/p?x=1&k%26=a%20b#f".toList "k&".toList = .ok .absent ∧
+    get_query_argument "http://a.com/p?x=1&k%26=a%20b#f".toList (quote "k&".toList)
+      = .ok (.str "a%20b".toList) ∧
+    get_query_argument (add_query_argument "http://a.com".toList "k".toList (some "a b".toList) true)
+      "k".toList = .ok (.str "a%20b".toList) :=
+  ⟨by decide +kernel, by rfl, by rfl, by rfl⟩
+
+theorem fullRawReadBack_false : ¬ FullRawReadBack := by
+  intro h
+  have := h "http://a.com/p?x=1#f".toList "k&".toList "a b".toList (by decide) (by decide)
+    (by decide +kernel) (by decide +kernel)
+  rw [add_then_get_raw_fails_on_reserved.1, add_then_get_raw_fails_on_reserved.2.1] at this
+  cases this
+
+/-- non-vacuity of `add_then_get_raw`: all hypotheses hold on a url with a query and a fragment -/
+example : get_query_argument
+    (add_query_argument "http://a.com/p?x=1#f".toList "k-2".toList (some "a/b~c".toList) true) "k-2".toList
+      = .ok (.str "a/b~c".toList) :=
+  add_then_get_raw _ _ _ (by decide) (by decide) (by intro v hv; cases hv; decide) (by decide)
+    (by decide +kernel) (by decide +kernel)
 
 /-- **`pathsplit`**: with `core` = the path without surrounding white space and without its
 leading and trailing slashes, the result joined by `/` is `core`, no segment contains a `/`,
